@@ -607,8 +607,9 @@ func (loader *Loader) resolveRef(ref string, path *url.URL) (string, *url.URL, e
 		return "", nil, err
 	}
 
-	fragment := "#" + resolvedPathRef.Fragment
-	resolvedPathRef.Fragment = ""
+	// The fragment is parsed (and percent-decoded) again by the caller: hand it on in its escaped form.
+	fragment := "#" + resolvedPathRef.EscapedFragment()
+	resolvedPathRef.Fragment, resolvedPathRef.RawFragment = "", ""
 	return fragment, resolvedPathRef, nil
 }
 
